@@ -118,14 +118,28 @@ func (s *Server) Apply(l *raft.Log) interface{} {
 	if err := log.Unmarshal(l.Data); err != nil {
 		panic(err)
 	}
-	value, err := s.apply(log, l.Index, recovered)
-	if err != nil {
-		if s.isShutdown() {
-			// Don't panic if the server is shutting down, just return the
-			// error.
-			return err
+	// The preconditions of an operation are checked by the metadata leader
+	// before it proposes the operation, but leadership can move to another
+	// server and back between that check and the proposal, in which case the
+	// operation is committed behind operations the check has not seen. Such an
+	// operation is refused here, identically on every server, instead of
+	// failing in apply (which is fatal). The refusal is made available on the
+	// ApplyFuture like any other value.
+	var value interface{}
+	if refusal := s.refuseStaleOperation(log, recovered); refusal != nil {
+		s.logger.Warnf("fsm: Refused %s operation at Raft index %d: %v", log.Op, l.Index, refusal)
+		value = refusal
+	} else {
+		var err error
+		value, err = s.apply(log, l.Index, recovered)
+		if err != nil {
+			if s.isShutdown() {
+				// Don't panic if the server is shutting down, just return the
+				// error.
+				return err
+			}
+			panic(err)
 		}
-		panic(err)
 	}
 	s.activity.SignalCommit()
 
@@ -137,6 +151,33 @@ func (s *Server) Apply(l *raft.Log) interface{} {
 	s.raftLogListenersMu.RUnlock()
 
 	return value
+}
+
+// refuseStaleOperation returns an error if the stream or partition the
+// operation refers to is not in the state the operation requires: a stream to
+// be created exists already, or a stream or partition to be changed or deleted
+// does not exist (any more). It returns nil if the operation can be applied.
+func (s *Server) refuseStaleOperation(log *proto.RaftLog, recovered bool) error {
+	switch log.Op {
+	case proto.Op_CREATE_STREAM:
+		// During recovery a stream that is marked for deletion is recreated.
+		existing := s.metadata.GetStream(log.CreateStreamOp.Stream.Name)
+		if existing != nil && !(recovered && existing.IsTombstoned()) {
+			return ErrStreamExists
+		}
+	case proto.Op_DELETE_STREAM:
+		existing := s.metadata.GetStream(log.DeleteStreamOp.Stream)
+		if existing == nil || (recovered && existing.IsTombstoned()) {
+			return ErrStreamNotFound
+		}
+	case proto.Op_SHRINK_ISR:
+		return s.metadata.partitionExists(log.ShrinkISROp.Stream, log.ShrinkISROp.Partition)
+	case proto.Op_EXPAND_ISR:
+		return s.metadata.partitionExists(log.ExpandISROp.Stream, log.ExpandISROp.Partition)
+	case proto.Op_CHANGE_LEADER:
+		return s.metadata.partitionExists(log.ChangeLeaderOp.Stream, log.ChangeLeaderOp.Partition)
+	}
+	return nil
 }
 
 // apply the given RaftLog to the FSM. This returns a value, if any, which
